@@ -17,9 +17,10 @@ RULE = ("source regions filled from small vocabularies (1..9 strings over 1..4 f
         "merge_regions over 1..3 sources, pushes of vocabulary words / random strings / single low bytes / extensions / prefixes, "
         "every push read back, up to three generations and clear; a scarce-tag regime (ties decided by byte order); a crowded regime (more "
         "distinct strings than free tags, one dominating by the proved inequality 513*N < (F+1)*(513*C-2*N): must cost one byte); "
-        "plus >1024 distinct strings per source in the thorough tier; "
+        "a compacting regime (3..5 sources with disjoint vocabularies, counts 1..6, > 1024 weighted updates: the summary's tidy "
+        "runs inside new_from; dictionary compared index by index with the model); plus >1024 distinct strings per source in the thorough tier; "
         "non-trivial when the target region has a non-empty dictionary; distinct by operation and value shapes")
-ASSUMPTIONS = ["Vec::with_capacity(1024).capacity() == 1024 (std)", "the heavy-hitter summary is compared with the model only below its compaction threshold"]
+ASSUMPTIONS = ["Vec::with_capacity(1024).capacity() == 1024 (std): the summary compacts at exactly 1024 entries"]
 
 ENTRIES = ["codec", "string(codec)", "consec(codec,opt)"]
 
@@ -196,6 +197,51 @@ def crowded(rng, cat):
     return b.s
 
 
+def compacting(rng, cat):
+    """the heavy-hitter summary compacts (`tidy`): in the sources (more than 1024 insertions) and, with weights, while
+    `new_from` folds 3..5 sources with disjoint vocabularies into one summary (more than 1024 weighted updates, more than
+    512 distinct strings, counts 1..6). Which strings survive with which reduced count decides who gets the tags — compared
+    with the model index by index; the dominating string must still cost one byte (`dominant_strings_tagged` holds for
+    histories of any size)."""
+    b = RB(ID, cat, rng)
+    firsts = [97, 98, 99, 100][: 1 + rng.below(4)]
+    nsrc = 3 + rng.below(3)
+    srcs = ["s%d" % k for k in range(nsrc)]
+    hot = bytes([firsts[-1]]) + b"zz"
+    free = 256 - len(firsts)
+    plans = []
+    cold = []
+    for k, n in enumerate(srcs):
+        b.new(n)
+        words = [bytes([firsts[(i + k) % len(firsts)]]) + b"%d_%03d" % (k, i) for i in range(280 + rng.below(120))]
+        cold += words
+        plan = []
+        for w in words:
+            plan += [w] * (1 + rng.below(6))
+        plans.append(plan)
+    total = sum(len(p) for p in plans)
+    c = 1
+    while not 513 * (total + c) < (free + 1) * (513 * c - 2 * (total + c)):
+        c += 1
+    c += rng.below(5)
+    for _ in range(c):
+        plans[rng.below(nsrc)].append(hot)
+    for n, plan in zip(srcs, plans):
+        for i in range(len(plan) - 1, 0, -1):
+            j = rng.below(i + 1)
+            plan[i], plan[j] = plan[j], plan[i]
+        for w in plan:
+            b.push(n, w, b.form_for(w), sig="codec-default-push", cmp="status")
+    b.merge("t", srcs)
+    b.s.nontrivial = True
+    for i in range(64):
+        w = hot if i % 16 == 0 else rng.pick(cold)
+        exp = ("pred", cost_one, "dominating string costs one byte") if w == hot else ("prefix", "idx")
+        k, _ = b.push("t", w, b.form_for(w), expect=exp, sig="codec-dominant-one-byte" if w == hot else "codec-unambiguous-refused", cmp="idx")
+        b.read("t", k, sig="codec-read-differs")
+    return b.s
+
+
 def generate(seed, tier):
     rng = Rng(seed * 13 + 7)
     n = {"quick": 250, "thorough": 3000, "search": 800}[tier]
@@ -207,6 +253,8 @@ def generate(seed, tier):
         out.append(scarce(rng.fork(), cats[i % len(cats)]))
     for i in range({"quick": 6, "thorough": 30, "search": 12}[tier]):
         out.append(crowded(rng.fork(), cats[i % len(cats)]))
+    for i in range({"quick": 2, "thorough": 12, "search": 4}[tier]):
+        out.append(compacting(rng.fork(), cats[i % len(cats)]))
     if tier == "thorough":
         for i in range(6):
             out.append(script(rng.fork(), cats[0], big=True))
